@@ -1,6 +1,7 @@
 (* C02 -- Session setup carries the request faithfully and mirrors the decision. *)
 From WT.Model Require Import Base Varint Ids Frame Async StreamTS Wire Qpack Session Runner Emit.
-From WT.Proofs Require Import VarintP FrameP WireP QpackP SessionP RunnerP.
+From WT.Proofs Require Import VarintP FrameP WireP QpackP SessionP RunnerP HuffmanP QpackRT.
+From Coq Require Import Permutation.
 
 (* what the server application sees of a request built from (authority, path-with-query): exactly the
    fixed WebTransport pseudo-headers plus the URL's authority and path, and it is admitted *)
@@ -31,8 +32,7 @@ Theorem C02_extra_response_fields_irrelevant :
 Proof. exact response_extra_fields_irrelevant. Qed.
 
 (* the wire form: prefix integers of every width round-trip, static-table references are sound,
-   the section decoder is total (the full section round trip additionally rests on the Huffman code,
-   which is compared exhaustively with the implementation on every run: see DESIGN.md) *)
+   the section decoder is total *)
 Theorem C02_qpack_integer_roundtrip :
   forall n fl v tail, In n [1; 2; 3; 4; 5; 6; 7; 8] -> fl < 2 ^ (8 - n) -> v < two64 ->
     dec_int n (enc_int n fl v ++ tail) = Val (fl, v, tail).
@@ -45,6 +45,19 @@ Theorem C02_static_table_sound :
     | LNone => True
     end.
 Proof. exact lookup_index_sound. Qed.
+
+(* the whole wire form: any set of fields with distinct names (what a HashMap holds) whose names and
+   values are Rust Strings (valid UTF-8, length below 2^64) survives generate_frame -> with_frame:
+   the receiver's map holds exactly the sender's fields (Huffman or raw strings, static-table
+   references and literals alike), in the emitted order *)
+Theorem C02_header_map_roundtrip :
+  forall m, keys_distinct m = true -> fields_okb m = true ->
+    headers_with_frame (fpayload (headers_generate_frame m)) = Val (sorted_headers m)
+    /\ Permutation (sorted_headers m) m
+    /\ forall k, hget k (sorted_headers m) = hget k m.
+Proof. exact headers_roundtrip_b. Qed.
+Theorem C02_huffman_roundtrip : forall s, bytes_ok s = true -> hdecode (hencode s) = Some s.
+Proof. exact huffman_roundtrip. Qed.
 
 (* both endpoints name the session by the CONNECT stream: the id the accept path hands out is the
    one the opening path wrote *)
@@ -61,4 +74,11 @@ Example C02_example :
                        hget k_method h = Some v_connect /\ length h = 5%nat
   | _ => False
   end.
+Proof. vm_compute. repeat split; reflexivity. Qed.
+
+Definition ex_map : hmap := request_new ex_authority ex_path ++ [([120; 45; 195; 169], [226; 152; 131; 33])].
+Example C02_header_map_example :
+  keys_distinct ex_map = true /\ fields_okb ex_map = true /\
+  headers_with_frame (fpayload (headers_generate_frame ex_map)) = Val (sorted_headers ex_map) /\
+  hdecode (hencode ex_authority) = Some ex_authority.
 Proof. vm_compute. repeat split; reflexivity. Qed.
